@@ -137,8 +137,10 @@ impl HnswVectorIndex {
         })
     }
 
-    /// Add vector to index (no upserts, errors if full or wrong dimension)
-    pub fn add_vector(&mut self, doc_id: u64, embedding: &[f32]) -> Result<()> {
+    /// Input checks `add_vector` applies to an embedding (dimension, finiteness, normalization).
+    ///
+    /// Exposed so callers can reject an embedding before they make the write durable.
+    pub fn validate_vector(&self, embedding: &[f32]) -> Result<()> {
         if embedding.len() != self.dimension {
             anyhow::bail!(
                 "Embedding dimension mismatch: expected {}, got {}",
@@ -148,14 +150,6 @@ impl HnswVectorIndex {
         }
         if embedding.iter().any(|v| !v.is_finite()) {
             anyhow::bail!("embedding contains non-finite values");
-        }
-
-        if self.current_count >= self.max_elements {
-            anyhow::bail!(
-                "HNSW index full: {} elements (max {})",
-                self.current_count,
-                self.max_elements
-            );
         }
 
         if matches!(
@@ -171,6 +165,21 @@ impl HnswVectorIndex {
                     norm_sq
                 );
             }
+        }
+
+        Ok(())
+    }
+
+    /// Add vector to index (no upserts, errors if full or wrong dimension)
+    pub fn add_vector(&mut self, doc_id: u64, embedding: &[f32]) -> Result<()> {
+        self.validate_vector(embedding)?;
+
+        if self.current_count >= self.max_elements {
+            anyhow::bail!(
+                "HNSW index full: {} elements (max {})",
+                self.current_count,
+                self.max_elements
+            );
         }
 
         // Backends own their internal copy/layout policy. The index API accepts slices
